@@ -141,17 +141,18 @@ Definition kf (l : list string) : key := (l, None).
     the real loader on the same definition.
     v_corr : (controlled probes) both verdicts are what the regenerated tables predict
     v_prop : the two verdicts coincide ("usable from a file iff usable from the environment")
-    guards : 1 = the probe touches a recorded disagreement row (C20-F1) *)
+    guards : 1 = the probe touches a recorded disagreement row (C20-F1) of a group
+             that is not repaired yet ([fa]/[fb] = repair of group a/b applied) *)
 From HV Require Export C20.SchemaModel Gen.SchemaTables.
 
 Record scase := { s_probe : probe; s_controlled : bool; s_schema : bool; s_loader : bool }.
 
-Definition check_schema (c : scase) : verdict :=
+Definition check_schema (fa fb : bool) (c : scase) : verdict :=
   {| v_corr := negb (s_controlled c) ||
                (Bool.eqb (accepts schema_tbl (s_probe c)) (s_schema c) &&
                 Bool.eqb (accepts loader_tbl (s_probe c)) (s_loader c));
      v_prop := Bool.eqb (s_schema c) (s_loader c);
-     v_guards := guards [(1%Z, probe_guard (s_probe c))] |}.
+     v_guards := guards [(1%Z, probe_guard fa fb (s_probe c))] |}.
 
 Definition sc k t cf o c s l :=
   {| s_probe := {| p_kind := k; p_type := t; p_config := cf; p_opts := o |};
